@@ -53,7 +53,7 @@ func ws(t *rapid.T, label string, atLeastOne bool) string {
 }
 
 // drawFmtBody draws a structured program body as (canonical lines, noisy lines).
-func drawFmtBody(t *rapid.T, noisy bool, feat map[string]bool) (canon, noise []string, hasFlags bool) {
+func drawFmtBody(t *rapid.T, noisy bool, feat map[string]bool, maxLines int) (canon, noise []string, hasFlags bool) {
 	depth := 0
 	lead := func() string {
 		if !noisy {
@@ -96,7 +96,7 @@ func drawFmtBody(t *rapid.T, noisy bool, feat map[string]bool) (canon, noise []s
 		emit(ind()+e, lead()+e)
 		feat["deep-nesting"] = true
 	}
-	n := drawInt(t, 0, 10, "nlines")
+	n := drawInt(t, 0, maxLines, "nlines")
 	for i := 0; i < n; i++ {
 		switch drawInt(t, 0, 15, "kind") {
 		case 0:
@@ -215,7 +215,7 @@ func drawSoupLine(t *rapid.T) string {
 }
 
 // drawFmtFile draws one assembly file (and the tree around it) for the format checks.
-func drawFmtFile(t *rapid.T, w *World) FmtFile {
+func drawFmtFile(t *rapid.T, w *World, maxLines int) FmtFile {
 	f := FmtFile{}
 	feat := map[string]bool{}
 	w.Put("crs/regex-assembly/include/inc1.ra", "abs\nbes\ncx\n")
@@ -239,7 +239,7 @@ func drawFmtFile(t *rapid.T, w *World) FmtFile {
 		noisy := chance(t, 75, "noisy")
 		// third flavour: every line already canonical, only the line terminators / the end of the file are off
 		termOnly := !noisy && chance(t, 60, "termonly")
-		canon, noise, hasFlags := drawFmtBody(t, noisy, feat)
+		canon, noise, hasFlags := drawFmtBody(t, noisy, feat, maxLines)
 		if f.IsInc && hasFlags {
 			// flags are not allowed in include files; keep the file format-only relevant
 		}
@@ -287,7 +287,7 @@ func drawFmtFile(t *rapid.T, w *World) FmtFile {
 		}
 	case m <= 8:
 		f.Mode = "soup"
-		n := drawInt(t, 0, 8, "soup-lines")
+		n := drawInt(t, 0, maxLines, "soup-lines")
 		nl := "\n"
 		if chance(t, 15, "soup-crlf") {
 			nl = "\r\n"
@@ -330,7 +330,11 @@ func drawFmtFile(t *rapid.T, w *World) FmtFile {
 func genFmt(t *rapid.T, tier string) (*World, any) {
 	w := NewWorld()
 	p := &FmtParams{}
-	p.File = drawFmtFile(t, w)
+	maxLines := 10
+	if tier == "thorough" {
+		maxLines = 40
+	}
+	p.File = drawFmtFile(t, w, maxLines)
 	if p.File.IsInc {
 		p.Includer = "crs/regex-assembly/942100.ra"
 		w.Put(p.Includer, "##!> include subject\nzz\n")
